@@ -108,6 +108,33 @@ def callee_decl(t):
     return c["path"]
 
 
+def _hir_strs(j, out=None):
+    """String literals in a typed-HIR JSON tree, in order."""
+    if out is None:
+        out = []
+    if isinstance(j, dict):
+        if j.get("k") == "Lit" and isinstance(j.get("lit"), dict) and j["lit"].get("lk") == "str":
+            out.append(j["lit"]["v"])
+        for v in j.values():
+            _hir_strs(v, out)
+    elif isinstance(j, list):
+        for v in j:
+            _hir_strs(v, out)
+    return out
+
+
+def _mir_consts(j, out):
+    if isinstance(j, dict):
+        if j.get("k") == "const" and isinstance(j.get("repr"), str):
+            out.append(j["repr"])
+        for v in j.values():
+            _mir_consts(v, out)
+    elif isinstance(j, list):
+        for v in j:
+            _mir_consts(v, out)
+    return out
+
+
 class Program:
     def __init__(self, facts_dir):
         self.crates = {}
@@ -125,6 +152,22 @@ class Program:
                 self.bodies.append(b)
                 self.by_path.setdefault((key, b.path), b)
         self.lib = self.crates.get("suiron-lib")
+        # named constants of the lib: path -> string literals of the initialiser (in source order)
+        self.const_strs = {}
+        for cj in (self.lib or {}).get("consts", []):
+            self.const_strs[cj["path"]] = _hir_strs(cj.get("hir"))
+
+    def str_literals(self, body):
+        """String literals a function can see: those in its own MIR and in the closures defined in it, plus the
+        contents of the named constants they mention (a literal moved into a `const` table stays visible)."""
+        out = []
+        for b in [body] + [c for c in self.lib_bodies() if c.kind == "Closure" and (c.parent == body.path or c.path.startswith(body.path + "::"))]:
+            for r in _mir_consts(b.mir, []):
+                if r.startswith('"'):
+                    out.append(r.strip('"'))
+                elif r in self.const_strs:
+                    out.extend(self.const_strs[r])
+        return out
 
     def lib_bodies(self):
         return [b for b in self.bodies if b.crate == "suiron-lib"]
